@@ -128,7 +128,8 @@ def generate(scn, workdir, max_crash=0, durable=False, name=None, dev=("F18", "F
     cfg = ["SPECIFICATION Spec", "CONSTANTS", " Def <- DefC", " StartAt <- StartAtC", " Inputs <- InputsC", " Outcomes <- OutcomesC",
            " MaxCrash = %d" % max_crash, " Durable = %s" % ("TRUE" if durable else "FALSE"),
            " Express = %s" % ("TRUE" if m.get("type") == "EXPRESS" else "FALSE"), " Dev <- DevC",
-           "INVARIANT NoBadOp", "INVARIANT NotifOK", "INVARIANT Drained", "INVARIANT NoLoss", "INVARIANT JoinPositional",
+           ] + (["INVARIANT NoBadOp", "INVARIANT NotifOK", "INVARIANT Drained", "INVARIANT NoLoss", "INVARIANT JoinPositional"] if max_crash == 0
+                else ["INVARIANT NoLossUnderCrash"]) + [
            "CHECK_DEADLOCK FALSE"]
     with open(os.path.join(workdir, mod + ".cfg"), "w") as f:
         f.write("\n".join(cfg) + "\n")
